@@ -452,6 +452,11 @@ func toGenericRunnable[I, O any](cr *composableRunnable, ctxWrapper func(ctx con
 			return output, err
 		}
 
+		// nil is a valid result of an interface-typed graph (the plain assertion never holds for it)
+		if o, ok := assertType[O](out); ok {
+			return o, nil
+		}
+
 		return out.(O), err
 	}
 
